@@ -169,6 +169,21 @@ def expected_outcome(c, argvals):
     return ("return", None)
 
 
+def canon(j, sort):
+    """view-independent JSON form: a str|HTML result is compared on the AttrVal view"""
+    if sort in ("AttrVal", "OptAV"):
+        if isinstance(j, str):
+            j = {"$": "Plain", "s": j}
+        elif isinstance(j, dict) and j.get("$") == "Raw":
+            j = {"$": "RawV", "s": j["s"]}
+        if sort == "OptAV":
+            if j is None:
+                return {"$": "NoAV"}
+            if isinstance(j, dict) and j.get("$") in ("Plain", "RawV"):
+                return {"$": "SomeAV", "v": j}
+    return j
+
+
 def differential(src, c, n=200, seed=0, atoms=None, repo=None, depth=2):
     """Run the real function of contract c on n generated inputs satisfying `requires` and compare with
     the executable spec.  Returns (tested, mismatches[list of dict])."""
@@ -197,7 +212,7 @@ def differential(src, c, n=200, seed=0, atoms=None, repo=None, depth=2):
         else:
             if "exc" in r:
                 mism.append({"input": {k: to_json(x) for k, x in v.items()}, "expected": to_json(exp), "observed": r})
-            elif exp is not None and r["ok"] != to_json(exp):
+            elif exp is not None and canon(r["ok"], c.returns) != canon(to_json(exp), c.returns):
                 mism.append({"input": {k: to_json(x) for k, x in v.items()}, "expected": to_json(exp), "observed": r["ok"]})
     return len(cases), mism
 
